@@ -427,7 +427,9 @@ class TestCase:  # noqa: PLR0904
             True if all references are satisfiable, False if the statement must
             be dropped.
         """
-        for name in stmt.used_variables():
+        # Sorted, because the iteration order of a set of strings depends on the
+        # interpreter's hash seed and the loop consumes random numbers.
+        for name in sorted(stmt.used_variables()):
             if name in dropped:
                 return False
             if name in rename:
